@@ -1057,3 +1057,105 @@ func init() {
 		}),
 	)
 }
+
+func init() {
+	rootFresh := func(id string) core.Rule {
+		return rule(id, "the node installed as the tree's root never carries the cached (height-prefixed) storage key of a non-root node", 4, func(r *Run) {
+			// Node.Hash returns a cached hash unchanged, and a non-root node's cached hash is its
+			// height-prefixed storage key when EnableMavlPrefix is on.  The root's hash must be the bare
+			// content hash (it is the state root, and proofs are verified against it), so Tree.root may
+			// only receive: nil, a node created by the assigning call (NewNode, the result of Node.set),
+			// or the node loaded under the root hash the caller asked for (Tree.Load).
+			pkg := r.W.Pkg("system/store/mavl/db")
+			if pkg == nil {
+				r.Unresolved("package system/store/mavl/db")
+				return
+			}
+			n := 0
+			for _, f := range r.W.AllFuncs(pkg) {
+				if f.Lit != nil {
+					continue
+				}
+				c := f.Ctx()
+				ast.Inspect(f.Body(), func(x ast.Node) bool {
+					as, ok := x.(*ast.AssignStmt)
+					if !ok {
+						return true
+					}
+					for i, l := range as.Lhs {
+						if !core.IsObj(mdb+"Tree.root")(c, l) {
+							continue
+						}
+						n++
+						var rhs ast.Expr
+						idx := 0
+						if len(as.Rhs) == len(as.Lhs) {
+							rhs = as.Rhs[i]
+						} else if len(as.Rhs) == 1 {
+							rhs, idx = as.Rhs[0], i
+						}
+						label := fmt.Sprintf("%s: `%s` installs a root whose hash is a root hash", f.Name, core.ExprStr(as))
+						why, good := "", false
+						switch {
+						case rhs == nil:
+						case isNilLit(c, rhs):
+							good, why = true, "nil"
+						case idx == 0 && core.CallAtom([]string{mdb + "NewNode"})(c, rhs):
+							good, why = true, "a new node"
+						case idx == 0 && core.CallAtom([]string{mdbN + "set"})(c, rhs):
+							good, why = true, "result of Node.set (always a node created by that call, R02g)"
+						case idx == 0 && core.CallAtom([]string{mdb + "promoteToRoot"})(c, rhs):
+							good, why = true, "promoteToRoot: a copy with the bare content hash, marked not persisted so that it is stored again as a root (checked below)"
+						case idx == 0 && f.Name == mdbT+"Load" && core.CallAtom([]string{mdbD + "GetNode"}, core.AnyExpr, core.IsObj("param:0"))(c, rhs):
+							good, why = true, "the node stored under the requested root hash"
+						}
+						if good {
+							r.OK(label, r.W.Pos(as.Pos()), why)
+						} else {
+							r.Fail(label, r.W.Pos(as.Pos()), "the assigned node can be a persisted node of an older version (a child that became the root): its cached hash is the height-prefixed storage key under EnableMavlPrefix, so the tree reports a 48-byte, configuration-dependent root and proofs against it do not verify")
+						}
+					}
+					return true
+				})
+			}
+			// the helper the table trusts: it must cut the hash to its last sha256Len bytes and clear `persisted`
+			if pf := r.W.Func(mdb + "promoteToRoot"); pf != nil {
+				r.Touch(pf)
+				c := pf.Ctx()
+				cuts, clears := false, false
+				ast.Inspect(pf.Body(), func(x ast.Node) bool {
+					as, ok := x.(*ast.AssignStmt)
+					if !ok || len(as.Lhs) != 1 || len(as.Rhs) != 1 {
+						return true
+					}
+					sel, ok := ast.Unparen(as.Lhs[0]).(*ast.SelectorExpr)
+					if !ok {
+						return true
+					}
+					switch sel.Sel.Name {
+					case "hash":
+						if se, ok := ast.Unparen(as.Rhs[0]).(*ast.SliceExpr); ok && se.Low != nil && se.High == nil && core.Mentions(mdb+"sha256Len")(c, se.Low) && core.Mentions("builtin:len")(c, se.Low) {
+							cuts = true
+						}
+					case "persisted":
+						if tv, ok := c.Info.Types[as.Rhs[0]]; ok && tv.Value != nil && tv.Value.String() == "false" {
+							clears = true
+						}
+					}
+					return true
+				})
+				label := mdb + "promoteToRoot cuts the cached hash to the bare content hash and marks the copy not persisted"
+				if cuts && clears {
+					r.OK(label, r.W.Pos(pf.Node().Pos()), "hash = hash[len(hash)-sha256Len:]; persisted = false")
+				} else {
+					r.Fail(label, r.W.Pos(pf.Node().Pos()), fmt.Sprintf("cuts hash: %v, clears persisted: %v", cuts, clears))
+				}
+			}
+			if n < 4 {
+				r.Fail("assignments to Tree.root in mavl/db", "system/store/mavl/db/tree.go", fmt.Sprintf("expected ≥4, found %d", n))
+			}
+		})
+	}
+	extend("C02", "R02h: the node installed as a tree's root is nil, created by the assigning call, or loaded under the requested root hash — never an older version's non-root node with its cached (prefixed) hash.", rootFresh("R02h"))
+	extend("C03", "R03d (same rule as R02h): proofs are verified against the bare content hash of the root.", rootFresh("R03d"))
+}
